@@ -240,14 +240,14 @@ func c06Run(w *W, idx int) {
 
 var hostileDefaults = []interface{}{nil, int64(1), int64(0), true, false, "s", "", []int64{1, 2}, []int64{}, []string{"a"}, []string{}, map[int64]struct{}{1: {}}, map[string]struct{}{"a": {}}}
 
-func c06Config(infix bool, o OptSet, ev int, undefined bool) (*eval.Config, CaseCfg) {
-	cfg := CaseCfg{Opts: o, Events: ev, Undefined: undefined, Infix: infix, Consts: stdConsts, Custom: stdCustom, Stateless: stdStateless,
+func c06Config(infix bool, o OptSet, ev int, undefined bool, registerAlways bool) (*eval.Config, CaseCfg) {
+	cfg := CaseCfg{RegisterAlways: registerAlways, Opts: o, Events: ev, Undefined: undefined, Infix: infix, Consts: stdConsts, Custom: stdCustom, Stateless: stdStateless,
 		VarNames: []string{"b0", "b1", "b2", "b3", "b4", "i0", "i1", "i2", "s0", "s1", "li0", "ls0", "seti", "sets", "kshadow", "ishadow", "nilv"}}
 	return buildConfig(cfg, nil), cfg
 }
 
 func c06Input(w *W, r *rand.Rand, stratum, src string, infix bool, o OptSet, ev int, undefined bool) {
-	cc, cfg := c06Config(infix, o, ev, undefined)
+	cc, cfg := c06Config(infix, o, ev, undefined, len(src)%2 == 0)
 	w.Inc("inputs")
 	w.Inc("inputs_" + stratum)
 	if len(src) > 20000 {
@@ -296,6 +296,38 @@ func c06Input(w *W, r *rand.Rand, stratum, src string, infix bool, o OptSet, ev 
 			w.Evals++
 			if to.Panic != nil {
 				w.Fail("panic/"+normPanic(to.Panic)+"@"+panicSite(to.Stack), "DumpTable panicked: %v\nsource: %q\nconfig: %s\n%s", to.Panic, show, cfg, to.Stack)
+			}
+		}
+	}
+	// the stock fetchers chosen by NewCtxFromVars: empty binding, only registered names, registered + unknown names
+	if ev == 0 {
+		for k := 0; k < 3; k++ {
+			vals := map[string]interface{}{}
+			if k >= 1 {
+				for _, n := range []string{"b0", "b1", "i0", "i1", "s0", "li0", "nilv"} {
+					if r.Intn(2) == 0 {
+						vals[n] = hostileDefaults[r.Intn(len(hostileDefaults))]
+					}
+				}
+			}
+			if k == 2 {
+				vals["never_registered"] = int64(1)
+			}
+			for _, kind := range []CallKind{CallEval, CallTryEval} {
+				kind := kind
+				o := guard(func() (eval.Value, error) {
+					ctx := eval.NewCtxFromVars(cc, vals)
+					if kind == CallTryEval {
+						return e.TryEval(ctx)
+					}
+					return e.Eval(ctx)
+				})
+				w.Evals++
+				w.Inc("stock_fetcher_calls")
+				if o.Panic != nil {
+					w.Fail("panic/"+normPanic(o.Panic)+"@"+panicSite(o.Stack), "%s with NewCtxFromVars panicked: %v\nsource: %q\nconfig: %s\nbinding: %s\n%s",
+						[]string{"Eval", "TryEval"}[kind], o.Panic, show, cfg, Binding{Vals: vals}, o.Stack)
+				}
 			}
 		}
 	}
@@ -507,7 +539,7 @@ func c06Floors(m *Merged, tier string) []string {
 	if m.C("rejected")*10 < in {
 		unmet = append(unmet, fmt.Sprintf("only %d of %d inputs are rejected (<10%%)", m.C("rejected"), in))
 	}
-	for _, c := range []string{"mut_truncate", "mut_delete", "mut_insert", "mut_replace", "mut_duplicate", "mut_swap", "mut_edge", "inputs_fixed", "inputs_deep", "inputs_soup-infix", "inputs_containers-in-scalar-positions", "inputs_wide-andor-groups", "loop_events", "compiled_after_mutation"} {
+	for _, c := range []string{"mut_truncate", "mut_delete", "mut_insert", "mut_replace", "mut_duplicate", "mut_swap", "mut_edge", "inputs_fixed", "inputs_deep", "inputs_soup-infix", "inputs_containers-in-scalar-positions", "inputs_wide-andor-groups", "stock_fetcher_calls", "loop_events", "compiled_after_mutation"} {
 		if m.C(c) == 0 {
 			unmet = append(unmet, c+" = 0")
 		}
@@ -522,7 +554,7 @@ func deepNestChild(arg string) {
 	mk, _ := strconv.Atoi(parts[0])
 	d, _ := strconv.Atoi(parts[1])
 	src, infix := deepMakers[mk](d)
-	cc, _ := c06Config(infix, OptNone, 0, true)
+	cc, _ := c06Config(infix, OptNone, 0, true, false)
 	e, o := compileGuard(cc, src)
 	switch {
 	case o.Panic != nil:
